@@ -21,7 +21,8 @@ EXPLANATION = (
     "Suspend is constructed, the returned suspension list is a fresh empty list.  (5) retry: the retried operators are exactly "
     "the non-COMPLETED operators of the failed result, kept together in one job; the request is 2 x the old allocation; the "
     "Assignment is reached only with both 2*old/total ratios < 0.5, the ratios being computed from the doubled request before "
-    "any clamping to free resources.")
+    "any clamping to free resources; a retry that builds no Assignment has passed the half-pool test (it is never dropped for another reason); the "
+    "result a retry is cut from lists the ended container's whole operator list.")
 UNDECIDED = "arrival patterns and OOM histories are not executed; the sizing policy for new jobs (10 %) is not part of the property"
 ASSUMPTIONS = COMMON_ASSUMPTIONS
 
